@@ -10,6 +10,15 @@ def monitor(case, o):
     out = []
     evs = parse_log(o)
     ops = case["ops"]
+    if case.get("idle_graceful"):
+        # a graceful control on a job with no running process has nothing to wait for: the normal lane is not held
+        for op in ops:
+            if op["op"] == "run":
+                ran = [t for t, ev, aa in evs if ev == "mark" and aa[0] == str(op["mark"])]
+                if not ran or ran[0] > op["at"]:
+                    out.append(("C06_normal_held: a graceful control on a job without a running process held back later controls",
+                                f"run(mark {op['mark']}) sent at {op['at']}, executed at {ran[0] if ran else None}"))
+        return out
     # the monitors attribute log events to a graceful control by time; that is only unambiguous when the
     # history contains a single graceful control (everything else is decided by the membership diff)
     if len([1 for op in ops if op["op"].endswith("with_signal")]) != 1 or case["script"].get("kill_fail") \
@@ -100,6 +109,21 @@ class C06(C04):
                         ops.append({"at": 20 + grace + 150, "op": "run", "mark": 9, "yield": True})
                         extra.append({"id": 0, "script": {"children": [dict(child), dict(child)], "spawn_fail": [], "signal_fail": [], "kill_fail": []},
                                       "ops": ops, "waiters": 1, "tail": 1000})
+        # a graceful control on a job without a running process (never started, finished by itself, stopped): nothing to signal, nothing to
+        # wait for -- what is sent afterwards runs at once (and a graceful restart starts the command at once)
+        for name in ("stop_with_signal", "restart_with_signal", "try_restart_with_signal"):
+            for grace in (50, 100):
+                for state in ("never", "finished", "stopped"):
+                    ops = []
+                    if state != "never":
+                        ops.append({"at": 0, "op": "start", "yield": True})
+                    if state == "stopped":
+                        ops.append({"at": 20, "op": "stop", "yield": True})
+                    ops += [{"at": 60, "op": name, "sig": "Terminate", "grace": grace, "yield": True}, {"at": 70, "op": "run", "mark": 1, "yield": True},
+                            {"at": 75, "op": "run", "mark": 2, "yield": True}]
+                    child = {"self_exit": 30, "ignore_all": True} if state == "finished" else {"self_exit": None, "ignore_all": True}
+                    extra.append({"id": 0, "idle_graceful": True, "script": {"children": [dict(child), {"self_exit": None, "ignore_all": True}], "spawn_fail": [], "signal_fail": [], "kill_fail": []},
+                                  "ops": ops, "waiters": 1, "tail": 1000})
         return job_check(self, "thorough" if deep else tier, seed, monitor, extra)
 
 
